@@ -159,11 +159,12 @@ CHECKS["C06"] = {
     "rule": "one case = one prove_with_rng call on a (statement, witness) pair built by the harness to be valid or to break exactly one rule (count, degree, value +-1, one blinding "
             "component, value = 2^n or u64::MAX with a promise that brings the difference back in range, promise = value / value+1 / 2^n-1 / u64::MAX inside mixed Some/None vectors, "
             "errors that cancel across aggregate positions) at the first, middle and last position; non-trivial = the call reached the prover; distinct = distinct (group, configuration, attempt, values, promises)",
-    "require": {"quick": {"prove_calls": 4000, "proofs_emitted": 1000, "refusals": 2500, "emitted_proofs_verified": 1000},
+    "require": {"quick": {"prove_calls": 4000, "proofs_emitted": 1000, "refusals": 2500, "emitted_proofs_verified": 1000, "adaptive_opening_attacks": 800},
                 "thorough": {"prove_calls": 60000, "proofs_emitted": 15000, "refusals": 40000, "emitted_proofs_verified": 15000}},
     "assumptions": COMMON_ASSUMPTIONS + ["the validity predicate is the harness's knowledge of which rule it broke when constructing the case"],
     "level_text": "Calls the real prover on thousands of constructed (statement, witness) pairs over the lattice, each either valid (controls and boundary values 2^n-1, value == promise) "
-                  "or violating exactly one clause of the witness relation at one aggregate position, including violations that cancel across positions; Ok must coincide with validity, "
+                  "or violating exactly one clause of the witness relation at one aggregate position, including violations that cancel across positions and an adaptive attack that shifts two "
+                  "blindings by scalars the prover itself was observed to draw (transcript generators, challenges, the caller's generator) on an honest run; Ok must coincide with validity, "
                   "errors must be error values (no panic), and every emitted proof must be accepted by the library verifier and the reference verifier.",
     "level_note": "Held on the executed pairs. Trusted: harness case construction, refbp.",
 }
